@@ -11,7 +11,7 @@ kept by the GC and emitted.
       `find_for_function_entry`, and the only producer of types with that flag is `add_entry_ty`;
  (e3) the type section emitter skips exactly the flagged types."""
 from registry import RuleResult
-from heval import Evaluator, EvalError, sym, show, local_policy, strip_after
+from heval import Evaluator, EvalError, sym, show, local_policy, strip_after, cfield, subterms
 
 FB = 'function_builder::FunctionBuilder::new'
 LFP = 'module::functions::local_function::LocalFunction::parse'
@@ -26,20 +26,28 @@ def run(ctx):
         return res
     try:
         # (e1)
-        ws = Evaluator(F, local_policy(F, FB, public_events=True)).run_fn(FB, [sym('types'), sym('params'), sym('results')])
+        # the sequence allocations themselves are the events: helpers in between (dangling_instr_seq, private allocators) are inlined
+        def awi(st, a, n):
+            nid = sym('NEWID')
+            st.effect('call', 'tombstone_arena::TombstoneArena::alloc', (a[0], st.apply(a[1], [nid], n)), n)
+            return nid
+        pol = local_policy(F, FB, public_events=True, also_inline=[r'FunctionBuilder::dangling_instr_seq$', r'InstrSeqBuilder', r'ir::InstrSeq::new$'],
+                           events=[r'TombstoneArena::alloc$'], stubs={'tombstone_arena::TombstoneArena::alloc_with_id': awi})
+        ws = Evaluator(F, pol).run_fn(FB, [sym('types'), sym('params'), sym('results')])
         good = bool(ws)
         why = None
         for w in ws:
             if w.outcome != 'return':
                 continue
-            seqs = [e for e in w.trace if e['kind'] == 'call' and e['callee'].endswith('dangling_instr_seq')]
+            seqs = [e for e in w.trace if e['kind'] == 'call' and e['callee'].endswith('TombstoneArena::alloc')]
             if len(seqs) != 1:
                 good, why = False, 'creates %d sequences' % len(seqs)
                 continue
-            ty = strip_after(seqs[0]['args'][-1])
+            rec = strip_after(seqs[0]['args'][-1])
+            ty = strip_after(cfield(rec, 'ty')) if rec[0] == 'ctor' else rec
             st = show(ty)
-            if not (st.replace('into(', '').rstrip(')').startswith('add_entry_ty(types, results') or
-                    'add_entry_ty(types, results)' in st and 'new(' not in st.split('add_entry_ty')[0]):
+            calls = {t[1].split('::')[-1] for t in subterms(ty) if isinstance(t, tuple) and t and t[0] == 'call'}
+            if 'add_entry_ty(types, results)' not in st or calls - {'add_entry_ty', 'into', 'from'}:
                 good, why = False, 'types the entry sequence with %s' % st[:100]
         if good:
             res.ok('entry-type/builder', {'FunctionBuilder::new': 'entry sequence typed by add_entry_ty(results)'})
